@@ -368,3 +368,10 @@ Proof. intros H. unfold lower. apply in_map_iff. exists ":"%char. split; [reflex
 
 Lemma str_eqb_false_In c a b : In c a -> ~ In c b -> str_eqb a b = false.
 Proof. intros Ha Hb. apply str_eqb_neq. intros ->. contradiction. Qed.
+
+Lemma str_eqb_sym_aux a b : str_eqb a b = str_eqb b a.
+Proof.
+  destruct (str_eqb a b) eqn:E.
+  - apply str_eqb_eq in E. subst. symmetry. apply str_eqb_refl.
+  - symmetry. apply str_eqb_neq. apply str_eqb_neq in E. congruence.
+Qed.
